@@ -43,7 +43,7 @@ TRUSTED = ["tools/props/c03.py printers (expression -> text with alternating bra
 
 PRACTICE = os.path.join(impl.REPO, "tests", "practice")
 OPENS = "Open Scope string_scope.\nOpen Scope Z_scope."
-CONFIRM_S = 60
+CONFIRM_S = 40
 
 
 # ---------------------------------------------------------------------------------------------
@@ -330,9 +330,9 @@ def run_pairs(rep, label, groups, watchdog=8):
         if "hang" not in (ob["outcome"], ov["outcome"]):
             confirmed.append(item)
             continue
-        if checked >= 4 and spurious == checked:
+        if checked >= 2 and spurious == checked:
             continue            # every expiry looked at so far was load, not a hang
-        if checked >= 4:
+        if checked >= 2:
             confirmed.append(item)
             continue
         checked += 1
@@ -559,6 +559,42 @@ def chain_groups(rng, tier):
     return groups
 
 
+# B3b: the moved definitions shadow a symbol exported by another linked file / by an included file
+def shadow_groups(rng, tier):
+    groups = []
+    ctxs = [c for c in CONTEXTS if c[0] in ("byte", "word", "imm", "index", "blkb", "repeat", "link", "trap", "chain2", "lazyword")]
+    for ci, (cname, tmpl, target) in enumerate(ctxs):
+        for nonlinear, d in ((False, 1), (False, 6), (True, 3)):
+            dl, last = chain_text(d, nonlinear, target, form=ci)
+            use = tmpl.replace("{{", "{").replace("}}", "}").replace("{X}", last).split("\n")
+            other = oct(target + 3)[2:]
+            for how in ("linked", "included"):
+                if how == "linked":
+                    pre = [("e.mac", f"{last} == {other}\nx0 == {other}\n")]
+                    fs = None
+                    u = use
+                else:
+                    pre = []
+                    fs = {"e.mac": f"{last.upper()} == {other}\n"}
+                    u = ['.include "e.mac"'] + use
+                    if cname == "link":
+                        u = use[:1] + ['.include "e.mac"'] + use[1:]
+                base = "\n".join(dl + u) + "\n"
+                variants = []
+                for order in ("asc", "desc", "shuf"):
+                    for pos in ("before", "between", "after"):
+                        if (order, pos) == ("asc", "after"):
+                            continue
+                        dd = list(dl)
+                        if order == "desc":
+                            dd.reverse()
+                        elif order == "shuf":
+                            rng.shuffle(dd)
+                        variants.append((f"{order}/{pos}", pre + [("t.mac", "\n".join(place(dd, u, pos)) + "\n")], fs))
+                groups.append({"key": f"shadow:{how}:{cname}:{'nl' if nonlinear else 'add'}:{d}", "base": (pre + [("t.mac", base)], fs), "variants": variants})
+    return groups
+
+
 # B4: the known finding (bare-name statement = implicit .word, looked up at walk time)
 def implicit_word_groups():
     g = []
@@ -586,8 +622,12 @@ def metamorphic(rep, rng, tier, scale=1):
     if g2:
         rep.sample({"practice": g2[0]["key"], "variant": g2[0]["variants"][0][0] if g2[0]["variants"] else None})
     g3 = chain_groups(rng, tier)
-    bad = run_pairs(rep, "chain", g3, watchdog=15)
+    bad = run_pairs(rep, "chain", g3, watchdog=8)
     report_bad(rep, "chain", bad)
+    g3b = shadow_groups(rng, tier)
+    bad = run_pairs(rep, "shadow", g3b, watchdog=8)
+    report_bad(rep, "shadow", bad)
+    g3 = g3 + g3b
     g4 = implicit_word_groups()
     bad = run_pairs(rep, "implicit-word", g4)
     report_bad(rep, "implicit-word", bad, known_sig=lambda g, d: "implicit-word-order")
@@ -599,7 +639,7 @@ def explore(rep, br, tier, seed):
     impl.load()
     g3 = metamorphic(rep, rng, tier)
     # sanity of the chain programs: the canonical variant assembles
-    jobs = [((g["base"][0],), {"watchdog": 30}) for g in g3]
+    jobs = [((g["base"][0],), {"fs": g["base"][1], "watchdog": 30}) for g in g3]
     outs = impl.pmap("assemble", jobs, chunksize=4)
     for g, o in zip(g3, outs):
         if o["outcome"] != "ok":
